@@ -149,6 +149,8 @@ func render(cfg histCfg, specs []PktSpec, clientIP string) (units [][]byte, evs 
 				b = tsgu.TunnelAuthRaw(n, len(n)+2+p.MalN%64)
 			case "extra":
 				b = tsgu.Packet(tsgu.PktTunnelAuth, append(b[8:], make([]byte, 1+p.MalN%9)...))
+			case "odd": // an odd number of name bytes (e.g. the terminator counted as one byte); the name ends the packet
+				b = tsgu.TunnelAuthRaw(append(tsgu.UTF16(cname, false), 0), -1)
 			}
 		case "cc":
 			h, port := splitHP(w.addr(p.Host))
